@@ -177,9 +177,16 @@ def file_accessor_part(R, quick):
                         if got != want:
                             existed = want[0] == "ok"
                             overwrite = op[4] if op[0] == "sf" else op[5]
-                            if existed and overwrite and events[k][0] in ("write", "close") \
+                            unlinked = any(ev[0] == "unlink" for ev in events[:k])
+                            if existed and overwrite and (events[k][0] in ("write", "close") or unlinked) \
                                     and "overwrite-not-atomic" in known:
                                 R.known("overwrite-not-atomic")
+                            elif existed:
+                                # a refused or failed store that was not allowed to replace the name (or failed
+                                # before touching it) must leave what was stored: "cannot find" is not acceptable
+                                R.violation("a failed store destroyed or changed the content stored earlier under "
+                                            "the same name", case, {"before": h12._short(want), "after": h12._short(got),
+                                                                    "overwrite": bool(overwrite)})
                             elif not existed and got[0] == "ok" and is_prefix_of(got[1], op[2] if op[0] == "sf" else op[3]):
                                 R.count("fa:fault:partial-new-file-readable")
                             elif got in (["AccessErr"], ["IOErr"]):
